@@ -26,6 +26,9 @@ pub enum Tmo {
     None,
     Zero,
     Finite,
+    /// the longest duration there is (`Duration::MAX`): a finite timeout whose deadline is never
+    /// reached - deadline arithmetic must not overflow
+    Huge,
 }
 
 impl Tmo {
@@ -34,6 +37,7 @@ impl Tmo {
             Tmo::None => 'n',
             Tmo::Zero => 'z',
             Tmo::Finite => 'f',
+            Tmo::Huge => 'h',
         }
     }
     pub fn parse(s: &str) -> Option<Tmo> {
@@ -41,6 +45,7 @@ impl Tmo {
             "n" => Tmo::None,
             "z" => Tmo::Zero,
             "f" => Tmo::Finite,
+            "h" => Tmo::Huge,
             _ => return None,
         })
     }
@@ -49,6 +54,7 @@ impl Tmo {
             Tmo::None => None,
             Tmo::Zero => Some(Duration::ZERO),
             Tmo::Finite => Some(FINITE),
+            Tmo::Huge => Some(Duration::MAX),
         }
     }
 }
@@ -843,6 +849,7 @@ impl World {
                     // blocked on the slots mutex that a paused operation owns (the model takes no
                     // lock in this step, so this is a correspondence break), or really hung?
                     let held = self.pool.verif_snapshot(|_, _| {}).slots.is_none();
+                    let poisoned = self.pool.verif_poisoned();
                     return Err(match self.lock_owner() {
                         Some(j) if j != *i && held => format!(
                             "BLOCKED: op {} did not come back after `{}`: it waits for the slots mutex, which op {} holds at `{}` - the model takes no lock in this step",
@@ -851,6 +858,11 @@ impl World {
                             j,
                             self.sched.op(j).label
                         ),
+                        None if held && !poisoned => format!(
+                            "BLOCKED: op {} did not come back after `{}`: the slots mutex is held by an operation that is parked at a schedule point - a critical section spans a point where the model has none",
+                            i,
+                            a.line()
+                        ),
                         _ => format!("HANG: op {} did not come back after `{}`", i, a.line()),
                     });
                 }
@@ -858,6 +870,13 @@ impl World {
             }
         };
         let obs = self.obs(i);
+        if self.pool.verif_poisoned() {
+            // kept in the trace as the last line before the error
+            return Err(format!(
+                "POISONED: a panic unwound through a critical section of the slots mutex; every later call on the pool panics: {}",
+                obs
+            ));
+        }
         Ok(obs)
     }
 
